@@ -668,3 +668,49 @@ HARNESSES.append(dual_harness(
      "skactiveml.classifier.multiannotator._annotator_ensemble_classifier:AnnotatorEnsembleClassifier.predict_proba",
      "skactiveml.base:SkactivemlClassifier.predict", "skactiveml.utils._aggregation:compute_vote_vectors"],
     required_witnesses=("one_silent_annotator", "no_labels"), product_abstraction=False, timeout_ms=30000))
+
+
+# ---------------------------------------------------------------- AnnotatorLogisticRegression (bounded, see C12)
+from harness import C12 as _C12  # noqa: E402,F401  (registers the optimiser / softmax stand-ins before the facade is installed)
+
+
+def sc_alr_proba(d, n, A):
+    """AnnotatorLogisticRegression after two EM iterations (one-gradient-step optimiser, harness/C12.py) with arbitrary
+    non-negative label weights - incl. a sample whose labels all carry weight zero: finite probabilities that sum to one,
+    finite annotator confusion matrices"""
+    from skactiveml.classifier.multiannotator import AnnotatorLogisticRegression
+    idx = [[d.choose(f"label{i}_{a}", [-1, 0, 1]) for a in range(A)] for i in range(n)]
+    if not any(k >= 0 for r in idx for k in r):
+        if d.sym:
+            raise core.PathAbort("no label")
+        return
+    xs = [d.fl(f"x{i}", lo=-2.0, hi=2.0) for i in range(n)]
+    # (one label weight is 0 or 1, the others are 1: a sample whose only label carries weight zero is the case of interest;
+    #  fully symbolic weights exceed the quick budget)
+    ws = [[float(d.choose("w0_0", [0, 1])) if (i, a) == (0, 0) else 1.0 for a in range(A)] for i in range(n)]
+    X = d.arr([[x] for x in xs], shape=(n, 1))
+    y = d.arr([[NAN if k < 0 else float(k) for k in r] for r in idx], shape=(n, A))
+    try:
+        clf = AnnotatorLogisticRegression(classes=[0, 1], max_iter=2, fit_intercept=False, random_state=0).fit(X, y, d.arr(ws, shape=(n, A)))
+        P = clf.predict_proba(d.arr([[d.fl("q0", lo=-2.0, hi=2.0)]], shape=(1, 1)))
+    except (core.Unencodable, core.PathAbort):
+        raise
+    except Exception as e:
+        d.prove(False, "alr:fit_predict_succeed", info=dict(error=repr(e)[:160]))
+        return
+    def finite(v):
+        return core.b_and(core.b_not(core.boolexpr(core.s_isnan(v))), core.boolexpr(core.s_isfinite(v))) if d.sym else bool(np.isfinite(v))
+    for v in d.flat(clf.W_):
+        d.prove(finite(v), "alr:weights_finite")
+    for v in d.flat(clf.Alpha_):
+        d.prove(finite(v), "alr:confusion_matrices_finite")
+    for v in d.flat(P):
+        d.prove(finite(v), "alr:proba_finite")
+    d.witness(True, "ran")
+
+
+HARNESSES.append(dual_harness(
+    "annotator_logistic_regression", sc_alr_proba, lambda tier: [dict(n=2, A=2)],
+    ["skactiveml.classifier.multiannotator._annotator_logistic_regression:AnnotatorLogisticRegression.fit",
+     "skactiveml.classifier.multiannotator._annotator_logistic_regression:AnnotatorLogisticRegression.predict_proba"],
+    required_witnesses=("ran",), product_abstraction=True, resample=10))
